@@ -217,6 +217,39 @@ def gen_siamese_desc(rng, couts=(2, 3, 4), dim=2):
     return {'C0': C0, 'T': T, 'dim': dim, 'prog': prog, 'wseed': rng.randrange(1 << 30), 'siamese': 1}
 
 
+def gen_reuse_input_desc(rng, couts=(2, 3, 4), dim=2):
+    """One conv module `s` (C0 -> C0) invoked on the NETWORK INPUT and on an inner tensor: on its own
+    activated output (s(act(s(x)))), or on another layer's output with the results summed (either call
+    site first). The module owns one in-quantizer (first call site); the network-input quantizer lies
+    outside the sharing graph, so the two tensors cannot be quantized by one object."""
+    C0 = rng.choice([2, 3]) if couts != (2, 4, 8) else rng.choice([2, 4])
+    T = rng.choice([6, 8])
+    prog = [['input']]
+
+    def add(ins):
+        prog.append(ins)
+        return len(prog) - 1
+    k, bias = rng.choice([1, 3]), int(rng.random() < 0.7)
+    r = rng.random()
+    if r < 0.5:                 # s(x), then s on its own output
+        s_ = add(['conv', 0, C0, k, 1, bias])
+        cur = add(['relu', add(['reuse', add([rng.choice(['relu', 'relu6']), s_]), s_])])
+    else:
+        y = add(['relu', add(['conv', 0, C0, rng.choice([1, 3]), 1, int(rng.random() < 0.7)])])
+        if r < 0.75:            # inner tensor first, network input second
+            s_ = add(['conv', y, C0, k, 1, bias])
+            u = add(['relu', s_])
+            v = add(['relu', add(['reuse', 0, s_])])
+        else:                   # network input first, inner tensor second
+            s_ = add(['conv', 0, C0, k, 1, bias])
+            u = add(['relu', s_])
+            v = add(['relu', add(['reuse', y, s_])])
+        cur = add(['add', u, v] if rng.random() < 0.5 else ['add', v, u])
+    f = add(['flat', cur])
+    add(['lin', f, rng.choice([2, 4]) if couts == (2, 4, 8) else rng.choice([2, 3]), int(rng.random() < 0.8)])
+    return {'C0': C0, 'T': T, 'dim': dim, 'prog': prog, 'wseed': rng.randrange(1 << 30), 'reuse_in': 1}
+
+
 def gen_split_reuse_desc(rng, couts=(2, 3, 4), dim=2):
     """One conv module `sh` invoked twice whose two results feed DIFFERENT sums: one call site is
     summed with `side(x)`, the other is not (d reads the sum, e reads the other result, d + e is the
